@@ -120,6 +120,8 @@ def source_of(page):
             pc[0] -= 1
         while pending_close and pending_close[-1][0] == 0:
             out += pending_close.pop()[1]
+    if not out:
+        out = ["include_guard()", "message(nothing to document)"]
     return "\n".join(out) + "\n"
 
 
